@@ -17,6 +17,10 @@ Sub-checks
              themselves; after every step every map whose interpolant has been (re)built since its last edit -- the one
              operated on AND all the others -- is compared with the reference interpolant of its current rows, at the
              positions of the original map (so a chromosome that has left a map is queried there) and at its own markers
+    requery  ONE map object asked several times with marker arrays the caller keeps and edits IN PLACE between the calls
+             (two array pairs; a genotype matrix's vrnt_chrgrp / vrnt_phypos reached through its getters): interp_genpos,
+             gdist1p, gdist2p, rprob1p, rprob2p, interp_gmap, matrix.interp_genpos / interp_xoprob -- every answer is the
+             reference answer for the contents the arrays hold at the time of that call
 """
 import math
 from fractions import Fraction
@@ -49,6 +53,11 @@ ASSUMPTIONS = [
     "carries a copy of its source's interpolant by design), interpolation is examined only once build_spline() has been called "
     "on that object again -- the library does not rebuild on edits and the property does not say what a stale interpolant "
     "describes; stored rows are examined always; every edit leaves >= 2 markers on each remaining chromosome and >= 1 chromosome",
+    "requery: 'all query marker sets' is read per call -- the marker set of a call is what the arrays hold when the call is made, "
+    "whichever array objects carry it; marker sets handed to gdist*p / rprob*p / a genotype matrix stay sorted by (chromosome, "
+    "position) after every in-place edit; a matrix whose chromosome run lengths changed is grouped again before it is interpolated "
+    "(a run that is only relabelled, keeping the array sorted, may or may not be); what the matrix holds is read back through its "
+    "getters before the call, so the clause does not depend on the getters handing out the stored arrays",
 ]
 
 EPS = 2.0 ** -52
@@ -903,6 +912,250 @@ def check_history(case, ctx):
     ctx.nontrivial(len(trail) >= 3 and nfresh >= 1 and (len(slots) >= 2 or any(s_["had"] - set(s_["model"]) for s_ in slots)))
 
 
+# ----------------------------------------------------------------------------------------------------------------------
+# sub-check: requery (one map object is asked again and again; the caller re-uses its marker arrays and edits them in place)
+# ----------------------------------------------------------------------------------------------------------------------
+RQ_METHODS = ["interp_genpos", "interp_genpos", "gdist1p", "gdist2p", "rprob1p", "rprob2p", "interp_gmap"]
+RQ_EDITS = ["positions", "positions", "positions", "one_position", "relabel", "all", "none"]
+
+
+@st.composite
+def requery_case(draw):
+    n = draw(st.integers(1, 9))
+    qlist = st.lists(QUERY, min_size=n, max_size=n)
+    rounds = []
+    for _ in range(draw(st.integers(2, 6))):
+        rounds.append({"holder": draw(st.sampled_from(["A", "A", "A", "B", "G", "G"])),
+                       "method": draw(st.sampled_from(RQ_METHODS)), "edit": draw(st.sampled_from(RQ_EDITS)),
+                       "qs": draw(qlist), "k": draw(st.integers(0, 10 ** 6)), "write": draw(st.integers(0, 2)),
+                       "matrix_call": draw(st.sampled_from(["interp_xoprob", "interp_xoprob", "interp_genpos"])),
+                       "regroup": draw(st.booleans()), "rebuild": draw(st.sampled_from([False] * 7 + [True]))})
+    return {"map": draw(map_strategy()), "init": draw(qlist), "rounds": rounds, "fn": draw(st.sampled_from(["haldane", "kosambi"])),
+            "sorted": draw(st.sampled_from([True, True, True, False])), "phased": draw(st.booleans())}
+
+
+def _rq_kind(model, c, x):
+    if c not in model:
+        return "absent"
+    xs = model[c][0]
+    return "own" if x in xs else ("mid" if xs[0] < x < xs[-1] else "beyond")
+
+
+def _rq_edit(model, state, rd, keep_sorted):
+    """the marker set the caller wants to ask about next, derived from the one the arrays hold now"""
+    n = len(state)
+    model_x = {c: model[c][0] for c in model}
+    edit = rd["edit"]
+    if edit == "none":
+        return list(state)
+    if edit == "all":
+        new = [(q[0], q[1]) for q in build_queries_x(model_x, rd["qs"])]
+    elif edit in ("positions", "one_position"):
+        # same chromosomes, other positions (one marker corrected / a drawn subset of the markers moved)
+        which = {int(rd["k"]) % n} if edit == "one_position" else {i for i in range(n) if (int(rd["k"]) >> i) & 1} or {int(rd["k"]) % n}
+        new = []
+        for i, (c, x) in enumerate(state):
+            if i in which:
+                q = rd["qs"][i]
+                if c in model_x:
+                    x = build_queries_x({c: model_x[c]}, [dict(q, kind=("own" if q["kind"] == "absent" else q["kind"]))])[0][1]
+                else:
+                    x = int(q["off"]) % 5000
+            new.append((c, x))
+    else:
+        # every marker of one chromosome of the set moves to another label (in the map or not) that the set does not use yet
+        used = sorted(set(c for c, _ in state))
+        src = used[int(rd["k"]) % len(used)]
+        cand = [c for c in sorted(model_x) + [max(model_x) + d for d in range(1, 6)] if c not in used]
+        dst = cand[(int(rd["k"]) // 7) % len(cand)]
+        new = []
+        for i, (c, x) in enumerate(state):
+            if c == src:
+                q = rd["qs"][i]
+                if dst in model_x:
+                    x = build_queries_x({dst: model_x[dst]}, [dict(q, kind=("mid" if q["kind"] == "absent" else q["kind"]))])[0][1]
+                c = dst
+            new.append((c, x))
+    return sorted(new) if keep_sorted else new
+
+
+def _rq_write(arr, values, how):
+    """in place, through the array object the caller already holds"""
+    new = numpy.array(values, dtype=arr.dtype)
+    if how == 0:
+        for i in numpy.flatnonzero(arr != new).tolist():
+            arr[i] = new[i]
+    elif how == 1:
+        arr[:] = new
+    else:
+        numpy.copyto(arr, new)
+
+
+def _rq_positions(ctx, model, qs, got, what):
+    ctx.check(isinstance(got, numpy.ndarray) and got.shape == (len(qs),), "requery.shape", lambda: "%s: %r" % (what, getattr(got, "shape", None)))
+    refs = [ref_interp(model, c, x) for c, x in qs]
+    for (c, x), (val, tol, _), g in zip(qs, refs, numpy.asarray(got, dtype="float64").ravel().tolist()):
+        msg = lambda: "%s: chromosome %d position %d -> %r expected %r; marker set now %s" % (what, c, x, g, val, qs)
+        if c not in model:
+            ctx.check(math.isnan(g), "requery.absent_chromosome_is_missing", msg)
+        else:
+            ctx.check(not math.isnan(g) and abs(g - val) <= tol, "requery.positions_are_those_of_the_marker_set_passed_now", msg)
+    return refs
+
+
+def _rq_seq(ctx, model, qs, refs, got, what, kind=None):
+    """sequential distances (kind None) or recombination probabilities (map function kind) of a sorted marker set"""
+    clause = "requery.distances_are_those_of_the_marker_set_passed_now" if kind is None else \
+        "requery.probabilities_are_those_of_the_marker_set_passed_now"
+    n = len(qs)
+    ctx.check(isinstance(got, numpy.ndarray) and got.shape == (n,), "requery.shape", lambda: "%s: %r" % (what, getattr(got, "shape", None)))
+    gl = numpy.asarray(got, dtype="float64").ravel().tolist()
+    for i in range(n):
+        msg = lambda: "%s: index %d -> %r; marker set now %s" % (what, i, gl[i], qs)
+        if i == 0 or qs[i][0] != qs[i - 1][0]:
+            ctx.check(gl[i] == (INF if kind is None else 0.5), clause, msg)
+        elif qs[i][0] not in model:
+            ctx.check(math.isnan(gl[i]), clause, msg)
+        else:
+            d = refs[i][0] - refs[i - 1][0]
+            tol = refs[i][1] + refs[i - 1][1] + 4 * EPS * abs(d)
+            if kind is None:
+                ctx.check(abs(gl[i] - d) <= tol, clause, lambda: msg() + " expected %r" % d)
+            elif d < -tol:
+                ctx.label("negative_distance_skipped")      # non-congruent map: outside the domain of the map functions
+            else:
+                exp = ref_mapfn(kind, max(d, 0.0))
+                ctx.check(abs(gl[i] - exp) <= 4 * EPS + 2 * tol, clause, lambda: msg() + " expected %r" % exp)
+
+
+def _rq_pair(ctx, model, qs, refs, got, what, kind=None):
+    clause = "requery.distances_are_those_of_the_marker_set_passed_now" if kind is None else \
+        "requery.probabilities_are_those_of_the_marker_set_passed_now"
+    n = len(qs)
+    ctx.check(isinstance(got, numpy.ndarray) and got.shape == (n, n), "requery.shape", lambda: "%s: %r" % (what, getattr(got, "shape", None)))
+    if not (isinstance(got, numpy.ndarray) and got.shape == (n, n)):
+        return
+    for i in range(n):
+        for j in range(n):
+            v = float(got[i, j])
+            msg = lambda: "%s: [%d,%d] -> %r; marker set now %s" % (what, i, j, v, qs)
+            if qs[i][0] != qs[j][0]:
+                ctx.check(v == (INF if kind is None else 0.5), clause, msg)
+            elif qs[i][0] not in model:
+                ctx.check(math.isnan(v), clause, msg)
+            else:
+                d = abs(refs[i][0] - refs[j][0])
+                tol = refs[i][1] + refs[j][1] + 4 * EPS * d
+                exp = d if kind is None else ref_mapfn(kind, d)
+                ctx.check(abs(v - exp) <= tol + (0.0 if kind is None else 4 * EPS), clause, lambda: msg() + " expected %r" % exp)
+
+
+def check_requery(case, ctx):
+    mc = case["map"]
+    cls = mc["cls"]
+    kind = case["fn"]
+    f = make_mapfn(kind)
+    model = ref_model(mc)
+    keep_sorted = bool(case["sorted"])
+    m = build_map(mc, [int(i) for i in mc["perm"]])
+    if not mc.get("auto_group", True):
+        m.group()
+    ctx.label(cls)
+    ctx.label(kind)
+    ctx.label("marker_set_sorted" if keep_sorted else "marker_set_in_drawn_order")
+    init = [(q[0], q[1]) for q in build_queries(mc, case["init"])]
+    if keep_sorted:
+        init = sorted(init)
+    p = len(init)
+    holders = {}
+    for name in ("A", "B"):
+        holders[name] = {"qc": numpy.array([q[0] for q in init], dtype="int64"), "qx": numpy.array([q[1] for q in init], dtype="int64"),
+                         "state": list(init), "calls": 0}
+    g = None
+    if keep_sorted:
+        tag = (numpy.arange(p, dtype="int8") % 2)
+        gc = numpy.array([q[0] for q in init], dtype="int64")
+        gx = numpy.array([q[1] for q in init], dtype="int64")
+        if case["phased"]:
+            g = DensePhasedGenotypeMatrix(numpy.broadcast_to(tag, (2, 1, p)).astype("int8"), vrnt_chrgrp=gc, vrnt_phypos=gx)
+        else:
+            g = DenseGenotypeMatrix(numpy.broadcast_to(tag, (1, p)).astype("int8"), vrnt_chrgrp=gc, vrnt_phypos=gx)
+        g.group_vrnt()
+        holders["G"] = {"state": list(init), "calls": 0}
+
+    requeried = 0
+    for r, rd in enumerate(case["rounds"]):
+        hname = rd["holder"] if rd["holder"] in holders else "A"
+        h = holders[hname]
+        new = _rq_edit(model, h["state"], rd, keep_sorted)
+        changed = new != h["state"]
+        if rd["rebuild"]:
+            m.build_spline()
+            ctx.label("build_spline_between_calls")
+        if hname == "G":
+            qc, qx = g.vrnt_chrgrp, g.vrnt_phypos        # the public getters: the caller edits what they hand out
+            counts = lambda st_: [sum(1 for q in st_ if q[0] == c) for c in sorted(set(q[0] for q in st_))]
+            same_runs = counts(new) == counts(h["state"])
+            chr_changed = [q[0] for q in new] != [q[0] for q in h["state"]]
+        else:
+            qc, qx = h["qc"], h["qx"]
+        _rq_write(qc, [q[0] for q in new], int(rd["write"]))
+        _rq_write(qx, [q[1] for q in new], int(rd["write"]))
+        if hname == "G":
+            if chr_changed and (not same_runs or rd["regroup"]):
+                g.group_vrnt()                              # run lengths changed: the caller groups the matrix again
+                ctx.label("matrix_regrouped_after_edit")
+            # what the matrix holds now is what is asked about (read back, so nothing hinges on how the getters hand out arrays)
+            qs = list(zip(g.vrnt_chrgrp.tolist(), g.vrnt_phypos.tolist()))
+            ctx.label("matrix_edit_took_effect", changed and sorted(qs) == sorted(new))
+            h["state"] = qs
+            what = "round %d: genotype matrix (%s edited in place through its getters) .%s" % (
+                r, "contents" if changed else "nothing", rd["matrix_call"])
+            if rd["matrix_call"] == "interp_genpos":
+                g.interp_genpos(m)
+                _rq_positions(ctx, model, qs, g.vrnt_genpos, what)
+            else:
+                g.interp_xoprob(m, f)
+                refs = _rq_positions(ctx, model, qs, g.vrnt_genpos, what)
+                _rq_seq(ctx, model, qs, refs, g.vrnt_xoprob, what, kind)
+            ctx.check(list(zip(g.vrnt_chrgrp.tolist(), g.vrnt_phypos.tolist())) == qs, "requery.input_mutated", what)
+        else:
+            h["state"] = new
+            qs = new
+            method = rd["method"] if keep_sorted or rd["method"] in ("interp_genpos", "interp_gmap") else "interp_genpos"
+            what = "round %d: %s(arrays %s, %s since the previous call with them)" % (
+                r, method, hname, "edited in place" if changed else "unchanged")
+            snap_c, snap_x = qc.copy(), qx.copy()
+            if method == "interp_genpos":
+                _rq_positions(ctx, model, qs, m.interp_genpos(qc, qx), what)
+            elif method == "interp_gmap":
+                im = m.interp_gmap(qc, qx) if cls == "standard" else m.interp_gmap(qc, qx, qx + 1)
+                rows_im = list(zip(im.vrnt_chrgrp.tolist(), im.vrnt_phypos.tolist()))
+                ctx.check(sorted(rows_im) == sorted(qs), "requery.derived_map_rows_are_the_marker_set_passed_now",
+                          lambda: "%s: rows %s" % (what, rows_im))
+                if sorted(rows_im) == sorted(qs):      # every row's value is the interpolant at that row's position
+                    _rq_positions(ctx, model, rows_im, numpy.array(im.vrnt_genpos, dtype="float64"), what)
+            else:
+                refs = [ref_interp(model, c, x) for c, x in qs]
+                if method == "gdist1p":
+                    _rq_seq(ctx, model, qs, refs, m.gdist1p(qc, qx), what)
+                elif method == "gdist2p":
+                    _rq_pair(ctx, model, qs, refs, m.gdist2p(qc, qx), what)
+                elif method == "rprob1p":
+                    _rq_seq(ctx, model, qs, refs, f.rprob1p(m, qc, qx), what, kind)
+                else:
+                    _rq_pair(ctx, model, qs, refs, f.rprob2p(m, qc, qx), what, kind)
+            ctx.check(numpy.array_equal(qc, snap_c) and numpy.array_equal(qx, snap_x), "requery.input_mutated", what)
+            ctx.label("method_" + method)
+        if h["calls"] >= 1 and changed:
+            requeried += 1
+            ctx.label("same_arrays_asked_again_after_in_place_edit")
+            ctx.label("same_matrix_asked_again_after_in_place_edit", hname == "G")
+            ctx.label("edit_" + rd["edit"])
+        h["calls"] += 1
+    ctx.nontrivial(requeried >= 1 and any(_rq_kind(model, c, x) in ("own", "mid") for hh in holders.values() for c, x in hh["state"]))
+
+
 SUBCHECKS = [
     SubCheck("mapfn", check_mapfn, mapfn_case(), quick=600, thorough=5000, shards_quick=2,
              rule="both map functions x up to 12 distances (pool incl. 0, subnormal, 1e-8, 0.5, 5, 20, 1e3, inf + floats) x up to 12 "
@@ -931,4 +1184,15 @@ SUBCHECKS = [
              required_labels=("standard", "extended", "op_build_spline", "op_remove_chr", "op_derive", "maps>=2",
                               "rebuilt_after_chromosome_left", "history_query_on_chromosome_that_left_the_map",
                               "other_map_rebuilt_while_source_alive")),
+    SubCheck("requery", check_requery, requery_case(), quick=300, thorough=3000, shards_quick=2,
+             rule="map as in interp x ONE map object asked 2-6 times (interp_genpos, gdist1p, gdist2p, rprob1p, rprob2p, interp_gmap, or "
+                  "a genotype matrix's interp_xoprob / interp_genpos) with marker arrays the caller keeps (two array pairs and a "
+                  "genotype matrix's own arrays reached through its getters) and edits IN PLACE between the calls (one position, "
+                  "several positions, a chromosome relabelled, everything, nothing); every answer is compared with the reference for "
+                  "the contents at the time of the call; non-trivial = >=1 call with arrays that were passed before and edited since, "
+                  "and a marker at or between map markers",
+             required_labels=("standard", "extended", "same_arrays_asked_again_after_in_place_edit",
+                              "same_matrix_asked_again_after_in_place_edit", "matrix_edit_took_effect", "method_gdist1p",
+                              "method_gdist2p", "method_rprob1p", "method_rprob2p", "method_interp_gmap", "method_interp_genpos",
+                              "edit_positions", "edit_one_position", "edit_relabel", "edit_all")),
 ]
